@@ -1,12 +1,12 @@
 (* C04: the solution context and the primitives every shipped search operator is made of, as functions on the dumped
    state of Spec/Inv.v (the homes of a job, the registry, the tours).
    Rust items modelled (vrp-core/src):
-     solver/search/utils/removal.rs      :: JobRemovalTracker::{try_remove_job, remove_whole_route}        (PRemove / PRemoveRoute)
+     solver/search/utils/removal.rs      :: JobRemovalTracker::{try_remove_job, remove_whole_route}        (PRemove; a whole route = PRemove* + PDropEmpty)
      solver/search/redistribute_search.rs:: remove_jobs (job leaves its tour and goes to `unassigned`)       (PRemove to_unassigned)
      construction/heuristics/context.rs  :: SolutionContext::{keep_routes, remove_empty_routes}, RegistryContext::{get_route,
                                             free_route, use_route}, InsertionContext::restore               (PDropEmpty)
      construction/heuristics/insertions.rs :: apply_insertion_success, apply_insertion_failure, finalize_unassigned,
-                                            prepare_insertion_ctx                                            (PInsert / PFail / PFinalize / PPrepare)
+                                            prepare_insertion_ctx                                            (PInsert / PFail / PFinalize)
      construction/enablers/departure_time.rs :: advance/recede departure (RescheduleDeparture)               (PDeparture)
      solver/search/decompose_search.rs   :: merge_best                                                       (merge)
    Guards are the checks the Rust code performs before the mutation (locked jobs are refused, the registry hands out a
@@ -22,13 +22,14 @@ From VRP Require Import Base.Tac Model.Core Spec.Feasible Model.Eval Spec.Inv.
 Definition route_ok (P : pworld) (r : rdump) : bool :=
   match route_viol P r with [] => true | _ => false end.
 
-(* a tour after update_schedules (the model of accept_route_state's effect on the activities) *)
+(* a tour after update_schedules (accept_route_state's effect on the activities); the invariant never reads the cached
+   schedules of job activities, so `step` leaves them alone and the correspondence reschedules before comparing *)
 Definition resched_route (P : pworld) (r : rdump) : rdump :=
   mkRoute (r_actor r) (combine (reschedule (pdur P) (tour_of r)) (map snd (r_acts r))).
 
 Definition remove_job_acts (j : Z) (acts : list ract) : list ract := filter (fun x => negb (a_job (fst x) =? j)) acts.
 
-Definition new_route (P : pworld) (vs : vspec) : rdump :=
+Definition new_route (vs : vspec) : rdump :=
   let s := mkAct (-1) (vs_start vs) 0 (vs_shift_start vs) (vs_shift_latest vs) dzero (vs_shift_start vs) (vs_shift_start vs) in
   let e := match vs_end vs with
            | Some e => [(mkAct (-1) e 0 0 (v_shift_end (vs_veh vs)) dzero 0 0, 0)]
@@ -43,24 +44,21 @@ Fixpoint insert_steps (acts : list ract) (steps : list (nat * ract)) : list ract
   end.
 
 (* ---------------- primitives ---------------- *)
+(* remove_whole_route is PRemove for every job of the tour followed by PDropEmpty (keep_routes);
+   prepare_insertion_ctx (unassigned -> required) is folded into the guard of PInsert, which accepts both lists *)
 Inductive prim :=
 | PRemove (actor : Z) (job : Z) (to_unassigned : bool)
-| PRemoveRoute (actor : Z)
 | PDropEmpty
-| PPrepare
 | PInsert (actor : Z) (job : Z) (steps : list (nat * ract))
 | PFail (job : Z)
 | PFinalize
 | PDeparture (actor : Z) (dep : Z).
 
 Definition removez (j : Z) (l : list Z) : list Z := filter (fun k => negb (k =? j)) l.
-Definition set_routes (d : dump) (rs : list rdump) : dump :=
-  mkDump rs (d_required d) (d_ignored d) (d_unassigned d) (d_locked d) (d_avail d).
 Definition find_route (d : dump) (a : Z) : option rdump := find (fun r => r_actor r =? a) (d_routes d).
 Definition replace_route (rs : list rdump) (r' : rdump) : list rdump :=
   map (fun r => if r_actor r =? r_actor r' then r' else r) rs.
-
-Definition group_of (P : pworld) (j : Z) : Z := match find_job P j with Some s => j_group s | None => 0 end.
+Definition others (d : dump) (a : Z) : list rdump := filter (fun x => negb (r_actor x =? a)) (d_routes d).
 
 Definition set_departure (acts : list ract) (dep : Z) : list ract :=
   match acts with
@@ -68,64 +66,50 @@ Definition set_departure (acts : list ract) (dep : Z) : list ract :=
   | [] => []
   end.
 
+(* the group rule of GroupConstraint: no other tour serves a job of the same group *)
+Definition group_free (P : pworld) (d : dump) (a : Z) (j : Z) : bool :=
+  (group_of P j =? 0) || negb (existsb (has_group P (group_of P j)) (others d a)).
+
 Definition step (P : pworld) (p : prim) (d : dump) : option dump :=
   match p with
   | PRemove a j to_un =>
     match find_route d a with
     | Some r =>
       if serves r j && negb (memz j (d_locked d)) then
-        let r' := resched_route P (mkRoute a (remove_job_acts j (r_acts r))) in
-        Some (mkDump (replace_route (d_routes d) r')
+        Some (mkDump (replace_route (d_routes d) (mkRoute a (remove_job_acts j (r_acts r))))
                      (if to_un then d_required d else d_required d ++ [j]) (d_ignored d)
                      (if to_un then d_unassigned d ++ [j] else d_unassigned d) (d_locked d) (d_avail d))
       else None
     | None => None
     end
-  | PRemoveRoute a =>
-    match find_route d a with
-    | Some r =>
-      if forallb (fun j => negb (memz j (d_locked d))) (job_ids r) then
-        Some (mkDump (filter (fun x => negb (r_actor x =? a)) (d_routes d))
-                     (d_required d ++ nodup Z.eq_dec (job_ids r)) (d_ignored d) (d_unassigned d) (d_locked d)
-                     (a :: d_avail d))
-      else None
-    | None => None
-    end
   | PDropEmpty =>
-    let keep r := match job_ids r with [] => false | _ => true end in
-    Some (mkDump (filter keep (d_routes d)) (d_required d) (d_ignored d) (d_unassigned d) (d_locked d)
-                 (map r_actor (filter (fun r => negb (keep r)) (d_routes d)) ++ d_avail d))
-  | PPrepare =>
-    Some (mkDump (d_routes d) (d_required d ++ filter (fun j => negb (memz j (d_required d))) (d_unassigned d))
-                 (d_ignored d) [] (d_locked d) (d_avail d))
+    Some (mkDump (filter nonempty (d_routes d)) (d_required d) (d_ignored d) (d_unassigned d) (d_locked d)
+                 (map r_actor (filter (fun r => negb (nonempty r)) (d_routes d)) ++ d_avail d))
   | PInsert a j steps =>
-    if (memz j (d_required d) || memz j (d_unassigned d)) && negb (existsb (fun r => serves r j) (d_routes d)) then
-      match find_vs P a with
-      | None => None
-      | Some vs =>
-        let '(r0, fresh) := match find_route d a with
-                            | Some r => (Some r, false)
-                            | None => if memz a (d_avail d) then (Some (new_route P vs), true) else (None, false)
-                            end in
-        match r0 with
-        | None => None
-        | Some r =>
-          let r' := resched_route P (mkRoute a (insert_steps (r_acts r) steps)) in
-          let others := filter (fun x => negb (r_actor x =? a)) (d_routes d) in
-          let g := group_of P j in
-          if route_ok P r' && forallb (fun s => a_job (fst (snd s)) =? j) steps
-             && ((g =? 0) || negb (existsb (has_group P g) others)) then
-            Some (mkDump (if fresh then d_routes d ++ [r'] else replace_route (d_routes d) r')
-                         (removez j (d_required d)) (d_ignored d) (removez j (d_unassigned d)) (d_locked d)
-                         (if fresh then removez a (d_avail d) else d_avail d))
+    if (memz j (d_required d) || memz j (d_unassigned d)) && forallb (fun s => a_job (fst (snd s)) =? j) steps
+       && group_free P d a j then
+      match find_route d a with
+      | Some r =>
+        let r' := mkRoute a (insert_steps (r_acts r) steps) in
+        if route_ok P r' && serves r' j then
+          Some (mkDump (replace_route (d_routes d) r') (removez j (d_required d)) (d_ignored d)
+                       (removez j (d_unassigned d)) (d_locked d) (d_avail d))
+        else None
+      | None =>
+        match find_vs P a with
+        | Some vs =>
+          let r' := mkRoute a (insert_steps (r_acts (new_route vs)) steps) in
+          if memz a (d_avail d) && route_ok P r' && serves r' j then
+            Some (mkDump (d_routes d ++ [r']) (removez j (d_required d)) (d_ignored d)
+                         (removez j (d_unassigned d)) (d_locked d) (removez a (d_avail d)))
           else None
+        | None => None
         end
       end
     else None
   | PFail j =>
-    if memz j (d_required d) then
-      Some (mkDump (d_routes d) (removez j (d_required d)) (d_ignored d)
-                   (if memz j (d_unassigned d) then d_unassigned d else d_unassigned d ++ [j]) (d_locked d) (d_avail d))
+    if memz j (d_required d) && negb (memz j (d_unassigned d)) then
+      Some (mkDump (d_routes d) (removez j (d_required d)) (d_ignored d) (d_unassigned d ++ [j]) (d_locked d) (d_avail d))
     else None
   | PFinalize =>
     Some (mkDump (d_routes d) [] (d_ignored d)
@@ -133,8 +117,10 @@ Definition step (P : pworld) (p : prim) (d : dump) : option dump :=
   | PDeparture a dep =>
     match find_route d a with
     | Some r =>
-      let r' := resched_route P (mkRoute a (set_departure (r_acts r) dep)) in
-      if route_ok P r' then Some (set_routes d (replace_route (d_routes d) r')) else None
+      let r' := mkRoute a (set_departure (r_acts r) dep) in
+      if route_ok P r' then
+        Some (mkDump (replace_route (d_routes d) r') (d_required d) (d_ignored d) (d_unassigned d) (d_locked d) (d_avail d))
+      else None
     | None => None
     end
   end.
@@ -145,6 +131,11 @@ Fixpoint run (P : pworld) (w : list prim) (d : dump) : option dump :=
   | p :: r => match step P p d with Some d' => run P r d' | None => None end
   end.
 
+(* the words of a shipped operator: removals, `restore`, then insertions / failures / departure shifts, finalize *)
+Definition is_removal (p : prim) : bool := match p with PRemove _ _ _ => true | _ => false end.
+Definition keeps_tours_served (p : prim) : bool :=
+  match p with PRemove _ _ _ => false | _ => true end.
+
 (* merge_best of DecomposeSearch: the parts are put side by side; the registry is rebuilt by use_route *)
 Definition merge (P : pworld) (a b : dump) : dump :=
   mkDump (d_routes a ++ d_routes b) (d_required a ++ d_required b) (d_ignored a ++ d_ignored b)
@@ -152,9 +143,11 @@ Definition merge (P : pworld) (a b : dump) : dump :=
          (filter (fun v => negb (memz v (used a ++ used b))) (map vs_id (pw_vehicles P))).
 
 (* ---------------- correspondence entry points ---------------- *)
-Definition canon_route (r : rdump) := (r_actor r, map (fun x => (a_job (fst x), snd x, a_loc (fst x), a_tws (fst x), a_twe (fst x), a_arr (fst x), a_dep (fst x))) (r_acts r)).
-Definition canon (d : dump) :=
-  (map canon_route (d_routes d), d_required d, d_ignored d, d_unassigned d, d_avail d).
+Definition canon_route (P : pworld) (r0 : rdump) :=
+  let r := resched_route P r0 in
+  (r_actor r, map (fun x => (a_job (fst x), snd x, a_loc (fst x), a_tws (fst x), a_twe (fst x), a_arr (fst x), a_dep (fst x))) (r_acts r)).
+Definition canon (P : pworld) (d : dump) :=
+  (map (canon_route P) (d_routes d), d_required d, d_ignored d, d_unassigned d, d_avail d).
 
 (* replays the explanation of one dumped transition; the plugin compares the result with the dumped after-state *)
 Fixpoint first_failing (P : pworld) (w : list prim) (d : dump) (k : Z) : Z :=
@@ -164,6 +157,6 @@ Fixpoint first_failing (P : pworld) (w : list prim) (d : dump) (k : Z) : Z :=
   end.
 Definition run_word (P : pworld) (before : dump) (w : list prim) :=
   match run P w before with
-  | Some d' => (1, [canon d'], -1)
+  | Some d' => (1, [canon P d'], -1)
   | None => (0, [], first_failing P w before 0)
   end.
